@@ -13,6 +13,9 @@ QUERIES = ('valid',)
 
 
 def replay(data):
+    if data.get('query') == 'crosshair':
+        from ..xhair import replay_harness
+        return replay_harness(data)
     return replay_random(data)
 
 
@@ -37,3 +40,8 @@ def run(ctx):
     items = [(d, QUERIES, limit) for d in designs(ctx.tier, ctx.seed)]
     res = pmap(ctx, check_random, items)
     ctx.extra['design_outcomes'] = {str(k): res.count(k) for k in set(res)}
+    from .. import conform
+    from ..xhair import run_cases
+    ctx.functions.append('constraint.*.potential_sample_conforms on a symbolic column (CrossHair)')
+    run_cases(ctx, conform.HEADER, conform.cases(ctx.tier), timeout=600 if ctx.tier == 'thorough' else 150, path_timeout=30,
+              module_tag='conform', keyfn=lambda c, kw: f'conform:{c.name}')
